@@ -35,7 +35,8 @@ from sim.env import SimEnv, UNIT
 from sim.tape import jsonable
 from sim.threads import Baton, BatonLoop, line_tracer, run_forked, DONE, BLOCKED
 
-ENABLED = False  # switched on once determinism + sensitivity are proved
+import os as _os
+ENABLED = _os.environ.get("VERIF_C38_THREADS", "0") == "1"  # default on once proved
 SHARE = 0.3
 WALL = 30.0
 ID = "C38"
